@@ -4,6 +4,7 @@ import vlib
 from checks.c13 import build_tool
 
 PROP = "C20"
+NCPU_PLUS = vlib.NCPU + 3
 
 
 def gcfg(S, W, use, live):
@@ -52,6 +53,13 @@ def run(tier):
                 continue
             for o in ([None, "data", "./a/b/c", "ABS", "pre"] if thorough else ([None, "pre"] if n == 20000 else ["ABS", rng.choice(["data", "./a/b/c"])])):
                 scen.append((s, n, o, rng.choice([None, "0", "0-1"]), rng.choice([1, 2, 16])))
+    # the largest supported sample size (12.5 MB per file): a completion signal that comes before the data is on disk shows here
+    scen.append((3, 100000000, "data", None, 16))
+    scen.append((2, 100000000, None, "0", 1))
+    if thorough:
+        scen.append((NCPU_PLUS, 100000000, "./a/b/c", None, 16))
+    else:
+        scen.append((5, 1000000, "ABS", None, 16))
     events = []
     metas = []
     for si, (s, n, o, ts, gmp) in enumerate(scen):
